@@ -23,6 +23,7 @@ class VLoop(asyncio.SelectorEventLoop):
         self._clock_resolution = 2e-10
         self.vt = 0.0
         self.steps = 0
+        self.max_steps = 400_000
         self.step_hook = None
 
     def time(self):
@@ -33,6 +34,10 @@ class VLoop(asyncio.SelectorEventLoop):
 
     def _run_once(self):
         self.steps += 1
+        if self.steps > self.max_steps:
+            # no simulation of the sizes generated here needs this many loop iterations: something keeps
+            # itself busy without (virtual) time passing
+            raise Deadlock("livelock: %d event-loop iterations" % self.steps)
         if self.step_hook is not None:
             self.step_hook(self)
         if not self._ready:
@@ -298,8 +303,8 @@ def run_internal(cfg, devs, speed=(1, 1), initial=0, stim=(), t_end=3_000_000_00
     err = None
     try:
         vrun(main)
-    except Deadlock:
-        err = "deadlock"
+    except Deadlock as e:
+        err = str(e) or "deadlock"
     except Exception as e:  # noqa
         err = "exception " + repr(e)
     finally:
